@@ -50,6 +50,22 @@ type pctStrategy struct {
 	inited  bool
 	step    int
 	lowNext int
+	// windowOnly: only yields at call-window / shared-state / lock sites
+	// count as steps (PCT over synchronisation operations, as in the
+	// original algorithm): far fewer steps, so a given depth-d ordering is
+	// hit with far higher probability
+	windowOnly bool
+}
+
+// NewPCTW is PCT whose steps are the yields at window sites only.
+func NewPCTW(rng *RNG, d, estSteps int) Strategy {
+	p := NewPCT(rng, d, estSteps).(*pctStrategy)
+	p.windowOnly = true
+	return p
+}
+
+func isWindowSite(site string) bool {
+	return windowSites[site] || (len(site) > 2 && site[0] == 'g' && site[1] == ':')
 }
 
 // NewPCT implements PCT: random distinct priorities, d-1 priority change
@@ -66,7 +82,12 @@ func NewPCT(rng *RNG, d, estSteps int) Strategy {
 	return p
 }
 
-func (p *pctStrategy) Name() string { return fmt.Sprintf("pct(%d)", p.d) }
+func (p *pctStrategy) Name() string {
+	if p.windowOnly {
+		return fmt.Sprintf("pctw(%d)", p.d)
+	}
+	return fmt.Sprintf("pct(%d)", p.d)
+}
 
 //go:norace
 func (p *pctStrategy) Pick(s *Sched, prev *Task, site string, obj interface{}, runnable []*Task, def *Task) *Task {
@@ -86,10 +107,12 @@ func (p *pctStrategy) Pick(s *Sched, prev *Task, site string, obj interface{}, r
 		}
 		p.lowNext = p.d - 1
 	}
-	p.step++
-	if p.change[p.step] && prev != nil {
-		prev.prio = p.lowNext
-		p.lowNext--
+	if !p.windowOnly || isWindowSite(site) {
+		p.step++
+		if p.change[p.step] && prev != nil {
+			prev.prio = p.lowNext
+			p.lowNext--
+		}
 	}
 	best := runnable[0]
 	for _, t := range runnable[1:] {
